@@ -490,6 +490,7 @@ var selSubs = []selSub{
 	{pkg: "net", name: "Listen", repl: "NetListen", files: set("comm.go")},
 	{pkg: "os", name: "Stat", repl: "TtyStat", files: set("comm.go"), funcs: set("checkTmux")},
 	{pkg: "os", name: "OpenFile", repl: "TtyOpen", files: set("comm.go"), funcs: set("checkTmux")},
+	{pkg: "os", name: "CreateTemp", repl: "FsCreateTemp", files: set("comm.go")}, // trace log: a name that does not vary from run to run
 	// creating a destination file or directory is a scheduling point (and a place for a slow disk)
 	{pkg: "os", name: "OpenFile", repl: "FsOpenFile", files: set("transfer.go"), funcs: set("doCreateFile")},
 	{pkg: "os", name: "MkdirAll", repl: "FsMkdirAll", files: set("transfer.go"), funcs: set("doCreateDirectory")},
